@@ -37,7 +37,7 @@ func TestProp(t *testing.T) {
 		{"fc-seq", env.Pick(300, 6000), 96, func(i int) { runFillSeq(rep, env, i) }},
 		{"fc-conc", env.Pick(300, 8000), 96, func(i int) { runFillConc(rep, env, i) }},
 		{"google", env.Pick(450, 12500), 128, func(i int) { runProvider(rep, env, "google", i) }},
-		{"cognito", env.Pick(450, 12500), 128, func(i int) { runProvider(rep, env, "cognito", i) }},
+		{"cognito", env.Pick(450, 12500), 64, func(i int) { runProvider(rep, env, "cognito", i) }},
 	}
 	replaying := false
 	start := time.Now()
